@@ -42,7 +42,7 @@ def frames(depth, tier, level):
     out = []
     if level == "full":
         for kind in KINDS:
-            for eff in ("", "STL", "S", "T") if tier == "thorough" else ("", "STL"):
+            for eff in ("", "STL", "S", "T", "L") if (tier == "thorough" or kind == "STATICCALL") else ("", "STL"):
                 for oc in OUTCOMES:
                     for v in value_choices(kind, depth, tier):
                         out.append((kind, eff, v, oc))
